@@ -48,6 +48,8 @@ type wspLink struct {
 	pending       []int // outstanding WRAP seqs, oldest first
 	timeout       time.Duration
 
+	joinRetries int
+
 	mu      sync.Mutex
 	frames  int
 	dataErr error
@@ -106,20 +108,34 @@ func dialWSP(wsURL string, timeout time.Duration, withData bool) (*wspLink, erro
 	}
 	l.channel = hdr["channel"]
 	if withData {
-		dd := websocket.Dialer{Subprotocols: []string{"data"}, HandshakeTimeout: timeout}
-		data, _, err := dd.Dial(wsURL, nil)
-		if err != nil {
-			ctl.Close()
-			return nil, err
-		}
-		st, hdr, _, err := wspExchange(data, "WSP/1.1 JOIN\r\nchannel: "+l.channel+"\r\nseq: 2\r\n\r\n", timeout)
-		if err != nil || st != 200 || hdr["seq"] != "2" {
-			ctl.Close()
+		// ipchub answers INIT before it stores the new session, so a JOIN sent right
+		// away can get 404 (handshake race in service/wsp/wsp.go, outside this
+		// property): retry on a fresh data connection, bounded
+		var lastErr error
+		for try := 0; try < 200 && l.data == nil; try++ {
+			dd := websocket.Dialer{Subprotocols: []string{"data"}, HandshakeTimeout: timeout}
+			data, _, err := dd.Dial(wsURL, nil)
+			if err != nil {
+				ctl.Close()
+				return nil, err
+			}
+			st, hdr, _, err := wspExchange(data, "WSP/1.1 JOIN\r\nchannel: "+l.channel+"\r\nseq: 2\r\n\r\n", timeout)
+			if err == nil && st == 200 && hdr["seq"] == "2" {
+				l.data = data
+				break
+			}
 			data.Close()
-			return nil, fmt.Errorf("WSP JOIN: status %d headers %v err %v", st, hdr, err)
+			lastErr = fmt.Errorf("WSP JOIN: status %d headers %v err %v", st, hdr, err)
+			if st != 404 {
+				break
+			}
+			l.joinRetries++
+			time.Sleep(200 * time.Microsecond)
 		}
-		l.data = data
-		l.seq = 2
+		if l.data == nil {
+			ctl.Close()
+			return nil, lastErr
+		}
 		go l.pumpData()
 	}
 	return l, nil
